@@ -15,9 +15,89 @@ LIMITS = {"search": 1000, "ud_calls": 5000, "size": 50_000_000, "time_ms": 3000,
 WATCHDOG = 90.0   # generous: the machine may be loaded; a real hang never answers
 
 
+QUICK_ANSWER = 30.0   # an adversarial program under LIMITS answers within seconds; a request silent for this long is
+                      # killed and re-run once alone under the full WATCHDOG before it counts as a hang
+
+
+def _watched_worker(reqs, idxs, out, timeout):
+    """one harness child fed one request at a time; a request that does not answer within `timeout` kills the
+    child (answer {"hang": true}), a dead child answers {"abort": ..}; the child is restarted for the next one"""
+    import select
+    proc = None
+
+    def start():
+        return subprocess.Popen([HARNESS_BIN], stdin=subprocess.PIPE, stdout=subprocess.PIPE, stderr=subprocess.DEVNULL, bufsize=0)
+    for i in idxs:
+        if proc is None or proc.poll() is not None:
+            proc = start()
+        try:
+            proc.stdin.write((json.dumps(reqs[i]) + "\n").encode())
+            proc.stdin.flush()
+        except Exception:
+            out[i] = {"abort": "stdin closed"}
+            proc = None
+            continue
+        buf = b""
+        deadline = time.time() + timeout
+        res = None
+        while True:
+            left = deadline - time.time()
+            if left <= 0:
+                res = {"hang": True}
+                break
+            r, _, _ = select.select([proc.stdout], [], [], left)
+            if not r:
+                continue
+            chunk = os.read(proc.stdout.fileno(), 1 << 16)
+            if not chunk:
+                res = {"abort": f"rc={proc.poll()}"}
+                break
+            buf += chunk
+            if b"\n" in buf:
+                line = buf.split(b"\n")[0]
+                try:
+                    res = json.loads(line.decode("utf-8", "replace"))
+                except Exception:
+                    res = {"abort": "unparsable answer"}
+                break
+        if "hang" in res or "abort" in res:
+            try:
+                proc.kill()
+                proc.wait(timeout=5)
+            except Exception:
+                pass
+            proc = None
+        out[i] = res
+    if proc is not None:
+        try:
+            proc.stdin.close()
+            proc.wait(timeout=5)
+        except Exception:
+            proc.kill()
+
+
+def run_watched(reqs, timeout, jobs=None):
+    """like common.run_harness, but every single request has its own deadline, so a hanging program costs
+    `timeout` seconds, not the budget of a whole batch"""
+    jobs = jobs or JOBS
+    out = [None] * len(reqs)
+    k = max(1, min(jobs, len(reqs)))
+    parts = [list(range(j, len(reqs), k)) for j in range(k)]
+    with ThreadPoolExecutor(max_workers=k) as ex:
+        list(ex.map(lambda idxs: _watched_worker(reqs, idxs, out, timeout), parts))
+    return out
+
+
 def run_timed(srcs, limits, timeout=WATCHDOG):
     reqs = [{"op": "gen", "f": "timed_run", "src": s, "get": ["a"], "limits": limits} for s in srcs]
-    return run_harness(reqs, per_req_timeout=timeout)
+    res = run_watched(reqs, QUICK_ANSWER)
+    again = [i for i, r in enumerate(res) if "hang" in r]
+    if again:
+        # silent for QUICK_ANSWER seconds: once more, alone (two at a time), with the full watchdog
+        res2 = run_watched([reqs[i] for i in again], timeout, jobs=2)
+        for i, r in zip(again, res2):
+            res[i] = r
+    return res
 
 
 def outcome(r):
@@ -62,6 +142,30 @@ FIXED = [
     "[1, 2].to_generator().product([true].to_generator().repeat().filter(not)).take(1).to_array()",
     "[1, 2].to_generator().product([1].to_generator().take(0)).to_array()",
 ]
+
+
+NATIVE_INFINITE = ["count().to_generator()", "[1].to_generator().repeat()", "[1, 2, 3].to_generator().repeat()",
+                   "count().to_generator().zip(count().to_generator())", "count().to_generator().add(count().to_generator())",
+                   "[true].to_generator().repeat()", "count().to_generator().windows(2)", "count().to_generator().with_count()"]
+
+
+def huge_slices(rng, n):
+    """`<native infinite generator>.skip(N).take(k)` and `.take(N + k).skip(N)` with N far above the search limit: the
+    N discarded elements are native work, so the only acceptable outcome is MaximumSearch (and quickly)"""
+    out = []
+    for _ in range(n):
+        g = rng.choice(NATIVE_INFINITE)
+        N = rng.choice([10**7, 10**8, 10**9, 10**12, 10**15, 10**18, 2**62, 3 * 10**7 + 1])
+        k = rng.choice([1, 2, 5, 100])
+        shape = rng.choice(["{g}.skip({N}).take({k})", "{g}.take({M}).skip({N})", "{g}.skip({N}).take({k}).skip(1)",
+                            "{g}.take({M}).skip({N}).take(1)", "{g}.skip(1).take({M}).skip({N})"])
+        if "skip(1)" in shape and not shape.startswith("{g}.skip(1)"):
+            k = max(k, 2)          # skip(N).take(1).skip(1) is the empty slice [N+1, N+1): nothing to discard
+        cons = rng.choice(["to_array()", "len()", "get(0)", "take(1).to_array()"])
+        if cons == "take(1).to_array()" and rng.random() < 0.5:
+            cons = "to_array()"
+        out.append((shape.format(g=g, N=N, k=k, M=N + k) + "." + cons))
+    return out
 
 
 def adversarial(rng, n):
@@ -128,7 +232,9 @@ def run(chk):
 
     phases["A"] = round(time.time() - chk.t0, 1)
     # ------------------------------------------------------------------ (B) adversarial programs under a watchdog
-    progs = adversarial(rng, 400 if quick else 1500)
+    slices = huge_slices(rng, 120 if quick else 600)
+    progs = adversarial(rng, 400 if quick else 1500) + slices
+    must_search = set(slices)
     srcs = [f"let a = {e};" for e in progs]
     resps = run_timed(srcs, LIMITS)
     worst = (0, "")
@@ -142,6 +248,11 @@ def run(chk):
         if ms > worst[0]:
             worst = (ms, e)
         chk.nontrivial.add(e)
+        if e in must_search and kind not in ("hang", "panic", "viol:MaximumSearch"):
+            shape = re.sub(r"\d+", "N", e)[:70]
+            chk.violation(f"busy:unlimited-skip:{shape}",
+                          f"`{s}` under limits {LIMITS}: {o[:120]}; discarding more elements than the search limit allows must end in MaximumSearch",
+                          {"op": "gen", "f": "timed_run", "src": s, "get": ["a"], "limits": LIMITS, "expected": "viol MaximumSearch", "got": o})
         if kind in ("hang", "panic"):
             shape = re.sub(r"\d+", "N", e)[:70]
             chk.violation(f"busy:{kind}:{shape}",
